@@ -16,15 +16,30 @@ def hexs(s):
 
 class C01(Prop):
     id = "C01"
-    claim = False
     modules = ["H3.Props.C01"]
     engines = ["e2e"]
     design_ref = "DESIGN.md section 7, C01"
-    level_text = ("composition theorem over the send-side, frame-layer, request-receive, QPACK and header models: the wire "
-                  "bytes of a submitted message depend only on the message and the body chunking; for every chunking of "
-                  "those bytes the receiver delivers the same head, per-name ordered values, body and trailers, then one clean end")
+    level_text = ("Lean composition theorems over the component models (H3.E2E glue: Message, wire, sendAll, recvPattern, "
+                  "deliver): C01_wire_of_send — for every well-formed message and EVERY family of write-acceptance scripts "
+                  "(partial writes, Pending anywhere; calls awaited, R-14) the request stream is handed exactly wire(m) "
+                  "(+ the grease frame if owed) and finished (from C14); C01_wire_is_valid_message — the RFC 9114 oracle reads "
+                  "wire(m) as [HEADERS section, DATA piece_1..piece_n, (HEADERS trailers)?] and a clean end, the sections "
+                  "RFC-9204-decode to pseudo fields ++ map iteration (C11, C12); C01_recv_of_wire_partial — for EVERY transport "
+                  "script carrying those bytes (any non-empty chunks, pend anywhere, then FIN) the documented receive pattern, "
+                  "every call awaited, over the FrameStream model hands over the same head, header map (per-name order kept), "
+                  "body = concatenation of the pieces, trailers, exactly one clean end, no error, under size <= "
+                  "max_field_section_size (C10) — proved directly from the C02 invariant, no FrameSim hypothesis; "
+                  "C01_delivered_parts — same method, scheme, authority, path / status; C01_end_to_end_partial — the "
+                  "composition for requests and responses; C01_interleaving_irrelevant_partial — the record of a request "
+                  "stream after ANY run of the C14 connection machine depends only on the steps addressing it, receive "
+                  "components share only the error cell which every call leaves alone unless it answers a connection "
+                  "error, split halves act on disjoint components. _partial: sections of more than 24576 fields are refused "
+                  "by the receiver (C01_field_count_refused, observed on the real code); the connection driver is not a "
+                  "component of the interleaving products")
     level_note = ("trusted: Lean kernel + 3 axioms; component models tied by their own correspondence runs; the two-endpoint "
-                  "SimQuic run (two real h3 endpoints joined by a scripted relay) ties the composition; tokio/Quinn scheduling "
+                  "SimQuic run (two real h3 endpoints joined by a scripted relay) ties the composition: the driver's MODEL half "
+                  "is H3.E2E.deliver over a chunking of H3.E2E.wire of the scenario's message, with the identity instance of "
+                  "the http parameter, so the http round-trip assumptions are checked on every case; tokio/Quinn scheduling "
                   "not modelled (partial): granularity is one poll of one task or one transport event")
     rule = ("two real endpoints (client, server) over SimQuic joined by a relay that moves bytes only when the script says "
             "so; messages from alphabets of methods, absolute/authority-form targets, duplicate header names, high-byte values, "
@@ -32,9 +47,14 @@ class C01(Prop):
             "pieces / partial per stream; sender back-pressure via write credit; receiving calls posted before or after the "
             "data; executor order seeds; whole or split request streams; 1..2 concurrent requests; non-trivial = the request "
             "head was delivered")
-    trusted = ["http crate (HeaderMap order, Uri/Method parsing and printing)"]
-    assumptions = ["well-formed messages only (names lowercase tokens, values legal bytes)",
-                   "API programs are sequences of completed calls (R-14)"]
+    trusted = ["http crate (HeaderMap order, Uri/Method parsing and printing): parameter Http with HttpLaws (C12) and the "
+               "round-trip facts PseudoBack / HttpRoundTrip (parse(as_str(v)) = v for the crate's own Scheme, Authority, "
+               "PathAndQuery values; a built Uri has the parts it was built from), checked by the e2e run itself"]
+    assumptions = ["well-formed messages only (names lowercase tokens, values legal bytes; octets; at most 24576 fields per "
+                   "section: a limit of the receiver, C01_field_count_refused)",
+                   "API programs are sequences of completed calls (R-14)",
+                   "transport chunks are non-empty; a delivery arriving after a poll is a `pend` in the script (R-T)",
+                   "field sections within the receiver's max_field_section_size and the peer's advertised limit (C10)"]
 
     def project(self, line, impl):
         if " | " not in impl:
